@@ -92,6 +92,46 @@ mod kani_raw {
         if pk >= removed && pk < old.count { assert!(new.hdr == old.hdr && new.size == old.size && (pj >= old.size || new.byte == old.byte), "C09.raw.recv: remaining datagrams unchanged, in order"); }
     }
 
+    /// process (ingress): a raw socket only accepts packets of its IP version / protocol (C11); an accepted packet is queued exactly
+    /// once, last, whole (IPv4 header re-emitted from the parsed representation + the payload, byte for byte), or - when it does not
+    /// fit - nothing changes; queued datagrams keep their size, bytes and order
+    #[kani::proof] #[kani::unwind(24)]
+    fn c09_raw_process() {
+        bufs!(rm, rp, tm, tp);
+        let mut s = any_socket(&mut rm, &mut rp, &mut tm, &mut tp);
+        let (pk, pj) = ghost();
+        let old = s.rx_buffer.kani_view(MCAP, pk, pj);
+        let mut cx = Context::kani_ctx(Instant::from_millis(0), 1500, kani::any(), true);
+        let pay: [u8; 3] = kani::any();
+        let n: usize = kani::any();
+        kani::assume(n <= 3); // tag: range
+        let (src, dst) = (Ipv4Address::from_bits(kani::any()), Ipv4Address::from_bits(kani::any()));
+        let proto = IpProtocol::from(kani::any::<u8>());
+        let hop: u8 = kani::any();
+        let ip = IpRepr::Ipv4(Ipv4Repr { src_addr: src, dst_addr: dst, next_header: proto, payload_len: n, hop_limit: hop });
+        kani::assume(s.accepts(&ip)); // tag: pre
+        if let Some(p) = s.ip_protocol { assert!(p == proto, "C11.raw.accepts: only packets of the bound IP protocol are accepted"); }
+        if let Some(v) = s.ip_version { assert!(v == IpVersion::Ipv4, "C11.raw.accepts: only packets of the bound IP version are accepted"); }
+        s.process(&mut cx, &ip, &pay[..n]);
+        let new = s.rx_buffer.kani_view(MCAP, pk, pj);
+        kani::cover!(new.count == old.count + 1 && old.count > 0, "delivery behind a queued datagram reachable");
+        kani::cover!(new.count == old.count, "refusal (no room) reachable");
+        assert!(s.rx_buffer.kani_inv(MCAP), "C09.raw.process: buffer invariant preserved");
+        assert!(new.count == old.count || new.count == old.count + 1, "C09.raw.process: delivered at most once");
+        if pk < old.count { assert!(new.size == old.size && (pj >= old.size || new.byte == old.byte), "C09.raw.process: queued datagrams unchanged, in order"); }
+        if new.count == old.count + 1 && pk == old.count {
+            assert!(new.size == 20 + n, "C09.raw.process: the datagram is delivered whole (header + payload)");
+            if pj >= 20 && pj < 20 + n { assert!(new.byte == pay[pj - 20], "C09.raw.process: payload bytes unmodified"); }
+            if pj == 0 { assert!(new.byte == 0x45, "C09.raw.process: IPv4 header, version and length"); }
+            if pj == 2 { assert!(new.byte == 0, "C09.raw.process: total length high octet"); }
+            if pj == 3 { assert!(new.byte as usize == 20 + n, "C09.raw.process: total length covers header + payload"); }
+            if pj == 8 { assert!(new.byte == hop, "C09.raw.process: hop limit as received"); }
+            if pj == 9 { assert!(new.byte == u8::from(proto), "C09.raw.process: protocol as received"); }
+            if pj >= 12 && pj < 16 { assert!(new.byte == src.octets()[pj - 12], "C09.raw.process: source address as received"); }
+            if pj >= 16 && pj < 20 { assert!(new.byte == dst.octets()[pj - 16], "C09.raw.process: destination address as received"); }
+        }
+    }
+
     /// dispatch never panics whatever was queued (an empty or malformed datagram is dropped), hands over at most the head, and
     /// dequeues it iff the lower layer took it or it cannot be sent at all
     #[kani::proof] #[kani::unwind(24)]
